@@ -244,6 +244,10 @@ theorem enabled_flip_cause (st : St) (ev : Ev) (s' : Sock) (hs' : s' ∈ (step s
   | open6 c => exact Or.inl (viaSock_why st c _ s' hs' hen)
   | resolved c idx infos => exact Or.inl (viaSock_why st c _ s' hs' hen)
   | outside c v6 host port payload => exact Or.inl (viaSock_why st c _ s' hs' hen)
+  | join ip sp c =>
+    rcases mem_joinSock hs' with h | h
+    · exact Or.inl ⟨s', h, rfl, rfl, hen⟩
+    · subst h; simp at hen
 
 /-- `unopened_socket_untouched`: an `exit_data` call after which the named socket is still closed (a first cell from a
     foreign IP) has produced no output — nothing sent, no DNS lookup — and every still-closed socket of the table is an
@@ -260,17 +264,36 @@ theorem queued_rechecked (st : St) (cid c : Nat) (v : Bool) (data : Bytes) (dest
     (h : Out.emit c v data dest ∈ (step st (.open6 cid)).2) : gate st.flags st.pfx data = true :=
   (gate_iff _ _ _).mpr (step_policy st _ _ h).1
 
-/-- `enable_only_from_prev_hop`: after any history from a state with closed sockets, a socket is enabled (its outside
-    transports are being / have been opened) only if the history contains a DATA cell for its circuit, with a non-null
-    destination, whose source IP is the IP of the socket's previous hop -/
+/-- `hop_is_create_source`: after any history, the hop address of every exit socket is the hop address of a socket of the
+    initial state with that circuit id, or the SOURCE ADDRESS of a CREATE of the history for that circuit id
+    (`join_circuit` sets `hop = Peer(node_public_key, previous_node_address)`; nothing else ever changes it) -/
+theorem hop_is_create_source (st0 : St) (evs : List Ev) (s : Sock) (hs : s ∈ (run st0 evs).1.socks) :
+    (∃ s0 ∈ st0.socks, s0.cid = s.cid ∧ s0.hopIp = s.hopIp) ∨ ∃ sp, Ev.join s.hopIp sp s.cid ∈ evs := by
+  -- the identity part of the invariant does not need `Closed`: use the trivial history invariant on identities only
+  have key : ∀ (evs : List Ev) (st : St) (base : List (Nat × Bytes)), JoinsIn base evs →
+      (∀ x ∈ st.socks, (x.cid, x.hopIp) ∈ base) → ∀ x ∈ (run st evs).1.socks, (x.cid, x.hopIp) ∈ base := by
+    intro evs
+    induction evs with
+    | nil => intro st base _ h; simpa [run] using h
+    | cons ev evs ih =>
+      intro st base hj h
+      simp only [run]
+      refine ih (step st ev).1 base hj.tail ?_
+      exact step_ids st ev base hj.head h
+  exact baseOf_mem (key evs st0 (baseOf st0 evs) (joinsIn_baseOf st0 evs)
+    (fun x hx => List.mem_append_left _ (List.mem_map.mpr ⟨x, hx, rfl⟩)) s hs)
+
+/-- `enable_only_from_prev_hop`: after any history (with CREATEs) from a state with closed sockets, a socket is enabled (its
+    outside transports are being / have been opened) only if the history contains a DATA cell for its circuit, with a
+    non-null destination, whose source IP is the socket's hop IP — by `hop_is_create_source` the IP the CREATE came from -/
 theorem enable_only_from_prev_hop (st0 : St) (evs : List Ev) (h0 : Closed st0) (s : Sock)
     (hs : s ∈ (run st0 evs).1.socks) (hen : s.enabled = true ∨ s.t4 = true ∨ s.t6 = true) :
     ∃ sp d p, Ev.data s.hopIp sp s.cid d p ∈ evs ∧ d.isNull = false := by
-  have hinv0 : Inv (st0.socks.map fun s => (s.cid, s.hopIp)) [] st0 := by
+  have hinv0 : Inv (baseOf st0 evs) [] st0 := by
     intro x hx
     obtain ⟨e, t4, t6⟩ := h0 x hx
-    exact ⟨List.mem_map.mpr ⟨x, hx, rfl⟩, by simp [t6], by simp [t4], by simp [e]⟩
-  have hi := (run_inv _ evs [] st0 hinv0 s hs).2
+    exact ⟨List.mem_append_left _ (List.mem_map.mpr ⟨x, hx, rfl⟩), by simp [t6], by simp [t4], by simp [e]⟩
+  have hi := (run_inv _ evs [] st0 (joinsIn_baseOf st0 evs) hinv0 s hs).2
   have : s.enabled = true := by
     rcases hen with h | h | h
     · exact h
@@ -279,19 +302,18 @@ theorem enable_only_from_prev_hop (st0 : St) (evs : List Ev) (h0 : Closed st0) (
   obtain ⟨sp, d, p, hm, hn⟩ := hi.2.2 this
   exact ⟨sp, d, p, by simpa using hm, hn⟩
 
-/-- … and therefore every emission of a history is preceded by such a cell from the previous hop's IP of the socket
-    registered under that circuit id -/
+/-- … and therefore every emission of a history is preceded by such a cell from an IP that is the hop IP of an initial
+    socket with that circuit id or the source IP of a CREATE of the history for that circuit id -/
 theorem emit_requires_prev_hop_data (st0 : St) (evs : List Ev) (h0 : Closed st0) (fl : List Nat) (c : Nat) (v : Bool)
     (data : Bytes) (dest : Dest) (h : (fl, Out.emit c v data dest) ∈ (run st0 evs).2) :
-    ∃ s0 ∈ st0.socks, s0.cid = c ∧ ∃ sp d p, Ev.data s0.hopIp sp c d p ∈ evs ∧ d.isNull = false := by
-  have hinv0 : Inv (st0.socks.map fun s => (s.cid, s.hopIp)) [] st0 := by
+    ∃ ip, ((∃ s0 ∈ st0.socks, s0.cid = c ∧ s0.hopIp = ip) ∨ ∃ sp, Ev.join ip sp c ∈ evs) ∧
+      ∃ sp d p, Ev.data ip sp c d p ∈ evs ∧ d.isNull = false := by
+  have hinv0 : Inv (baseOf st0 evs) [] st0 := by
     intro x hx
     obtain ⟨e, t4, t6⟩ := h0 x hx
-    exact ⟨List.mem_map.mpr ⟨x, hx, rfl⟩, by simp [t6], by simp [t4], by simp [e]⟩
-  obtain ⟨ip, hb, sp, d, p, hm, hn⟩ := run_emit _ evs [] st0 hinv0 fl c v data dest h
-  obtain ⟨s0, hs0, heq⟩ := List.mem_map.mp hb
-  cases heq
-  exact ⟨s0, hs0, rfl, sp, d, p, by simpa using hm, hn⟩
+    exact ⟨List.mem_append_left _ (List.mem_map.mpr ⟨x, hx, rfl⟩), by simp [t6], by simp [t4], by simp [e]⟩
+  obtain ⟨ip, hb, sp, d, p, hm, hn⟩ := run_emit _ evs [] st0 (joinsIn_baseOf st0 evs) hinv0 fl c v data dest h
+  exact ⟨ip, baseOf_mem hb, sp, d, p, by simpa using hm, hn⟩
 
 /-- `queue_bounded`: the waiting queue of every exit socket stays within the `deque(maxlen=…)` bound of the code -/
 theorem queue_bounded (st : St) (ev : Ev) (h : ∀ s ∈ st.socks, s.queue.length ≤ Gen.QUEUE_MAXLEN) :
@@ -316,6 +338,13 @@ example : (run exSt [.data exSock.hopIp 999 7 exDest exDht, .open4 7, .setFlags 
 /-- a cell from a foreign IP does not open the socket -/
 example : ((run exSt [.data [57, 46, 57, 46, 57, 46, 57] 999 7 exDest exDht]).1.socks.map (·.enabled)) = [false] := by
   decide
+
+/-- a socket created by a CREATE from 10.0.0.1 is born closed; a cell from another IP leaves it closed, a cell from
+    10.0.0.1 opens it -/
+example : ((run { exSt with socks := [] } [.join exSock.hopIp 5000 9, .data [57, 46, 57] 5000 9 exDest exDht]).1.socks.map
+    (fun s => (s.cid, s.enabled, s.t4))) = [(9, false, false)] := by decide
+example : ((run { exSt with socks := [] } [.join exSock.hopIp 5000 9, .data exSock.hopIp 4000 9 exDest exDht]).1.socks.map
+    (fun s => (s.cid, s.hopIp == exSock.hopIp, s.enabled))) = [(9, true, true)] := by decide
 
 /-- a domain destination resolving to 0.0.0.0 with port 0 is dropped after resolution -/
 example : (run exSt [.data exSock.hopIp 999 7 ⟨.dom, [48], 0⟩ exDht, .open4 7, .open6 7,
